@@ -1,3 +1,6 @@
 -- modules of work area Silence (add imports here)
 import AM.Model.Silence
 import AM.Model.Silencer
+import AM.Lemmas.SilenceStore
+import AM.Props.C09
+import AM.Props.C12
